@@ -13,6 +13,7 @@ import (
 	"reflect"
 	"sort"
 	"strings"
+	"testing/fstest"
 	"unicode"
 
 	"github.com/google/safehtml"
@@ -53,9 +54,21 @@ func init() {
 	})
 }
 
+// only, when set, restricts what a witness replay reports to the clause and item of the witness
+// (a replay is the whole run: a different violation belongs to the run, not to this witness).
+var only *kase
+
+func report(c *core.Ctx, k kase, format string, args ...interface{}) {
+	if only != nil && (only.Clause != k.Clause || only.Item != "*" && only.Item != k.Item) {
+		return
+	}
+	c.Violation(k, format, args...)
+}
+
 func replay(c *core.Ctx, raw json.RawMessage) error {
 	var k kase
 	json.Unmarshal(raw, &k)
+	only = &k
 	if k.Clause == "generic-bypass" {
 		genericBypass(c, true)
 		return nil
@@ -90,7 +103,7 @@ func genericBypass(c *core.Ctx, judge bool) {
 		if st, ok := out.(fmt.Stringer); ok && strings.Contains(st.String(), p) {
 			c.Count("generic_bypass_works:"+n, 1)
 			if judge {
-				c.Violation(kase{Clause: "generic-bypass", Item: n}, "%s accepted the run-time string %q through `func Conv1[T ~string, R any](f func(T) R, s string) R { return f(T(s)) }`: a client program that passes a non-constant string to a constant-only parameter compiles (Go >= 1.18 type parameters)", n, p)
+				report(c, kase{Clause: "generic-bypass", Item: n}, "%s accepted the run-time string %q through `func Conv1[T ~string, R any](f func(T) R, s string) R { return f(T(s)) }`: a client program that passes a non-constant string to a constant-only parameter compiles (Go >= 1.18 type parameters)", n, p)
 				return
 			}
 		}
@@ -179,6 +192,17 @@ func (e *env) benign(t reflect.Type) (reflect.Value, bool) {
 	if _, ok := e.safe[t]; ok {
 		return reflect.Zero(t), true
 	}
+	switch t.Kind() {
+	case reflect.Int8, reflect.Int16, reflect.Int32, reflect.Int64, reflect.Uint, reflect.Uint8, reflect.Uint16, reflect.Uint32, reflect.Uint64, reflect.Float32, reflect.Float64, reflect.Func, reflect.Chan:
+		return reflect.Zero(t), true
+	case reflect.Interface:
+		// a harmless implementation, if one is at hand
+		for _, v := range []interface{}{fstest.MapFS{"a.tmpl": &fstest.MapFile{Data: []byte("A")}}, io.Discard, util.FlagValue("/benign/"), strings.NewReader("benign")} {
+			if reflect.TypeOf(v).Implements(t) {
+				return reflect.ValueOf(v).Convert(t), true
+			}
+		}
+	}
 	return reflect.Value{}, false
 }
 
@@ -198,6 +222,11 @@ func (e *env) hostile(t reflect.Type, p string) (reflect.Value, bool) {
 		return m, true
 	case t.Kind() == reflect.Interface && t.NumMethod() == 0:
 		return reflect.ValueOf(&p).Elem().Convert(t), true
+	case t.Kind() == reflect.Interface && reflect.TypeOf(fstest.MapFS{}).Implements(t):
+		// a file system made at run time, whose files hold the payload
+		return reflect.ValueOf(fstest.MapFS{"p.tmpl": &fstest.MapFile{Data: []byte(p)}, "sub/q.tmpl": &fstest.MapFile{Data: []byte(p)}}).Convert(t), true
+	case t.Kind() == reflect.Interface && reflect.TypeOf((*strings.Reader)(nil)).Implements(t):
+		return reflect.ValueOf(strings.NewReader(p)).Convert(t), true
 	case t == reflect.TypeOf(safehtml.StyleProperties{}):
 		v := reflect.New(t).Elem()
 		for i := 0; i < v.NumField(); i++ {
@@ -220,6 +249,30 @@ func (e *env) tainted(v reflect.Value, p string, depth int) (bool, string) {
 		return false, ""
 	}
 	t := v.Type()
+	if t == reflect.TypeOf(template.TrustedFS{}) {
+		// what the file system holds is template text: parse everything in it and run it
+		var out string
+		core.Recover(func() {
+			tfs := v.Interface().(template.TrustedFS)
+			for _, pat := range []string{"*.tmpl", "*/*.tmpl"} {
+				tm, err := template.New("fsprobe").ParseFS(tfs, pat)
+				if err != nil {
+					continue
+				}
+				for _, x := range tm.Templates() {
+					if h, err := x.ExecuteToHTML(nil); err == nil {
+						out += h.String()
+					}
+				}
+			}
+		})
+		// (template text is markup by definition: the engine only normalises it, so the
+		// marker at the start of the payload decides)
+		if strings.Contains(out, strings.TrimSuffix(p, payloadTail)) {
+			return true, fmt.Sprintf("TrustedFS whose templates execute to HTML %q", out)
+		}
+		return false, ""
+	}
 	if name, ok := e.safe[t]; ok {
 		if m := v.MethodByName("String"); m.IsValid() {
 			var s string
@@ -342,13 +395,13 @@ func (e *env) probe(name string, fn reflect.Value, recv *reflect.Value) {
 		e.c.Hist("probe", "returned")
 		for _, o := range outs {
 			if b, what := e.tainted(o, p, 0); b {
-				e.c.Violation(kase{Clause: "taint", Item: name, Detail: fmt.Sprintf("payload in parameters %v", hot)}, "%s called with the caller-supplied string %q (parameters %v) returned a %s: unsanitized caller text inside a safe type", name, p, hot, what)
+				report(e.c, kase{Clause: "taint", Item: name, Detail: fmt.Sprintf("payload in parameters %v", hot)}, "%s called with the caller-supplied string %q (parameters %v) returned a %s: unsanitized caller text inside a safe type", name, p, hot, what)
 			}
 		}
 		// mutation through pointer receivers
 		if recv != nil && recv.Kind() == reflect.Ptr {
 			if b, what := e.tainted(recv.Elem(), p, 0); b {
-				e.c.Violation(kase{Clause: "mutation", Item: name}, "method %s stored the caller-supplied string %q in its receiver: %s", name, p, what)
+				report(e.c, kase{Clause: "mutation", Item: name}, "method %s stored the caller-supplied string %q in its receiver: %s", name, p, what)
 			}
 		}
 	}
@@ -366,7 +419,7 @@ func run(c *core.Ctx) {
 	for _, n := range surf.Safe {
 		t, ok := reg.Types[n]
 		if !ok {
-			c.Violation(kase{Clause: "registry", Item: n}, "safe type %s of the reviewed list is not exported any more", n)
+			report(c, kase{Clause: "registry", Item: n}, "safe type %s of the reviewed list is not exported any more", n)
 			continue
 		}
 		e.safe[t] = n
@@ -374,6 +427,7 @@ func run(c *core.Ctx) {
 	c.Count("registry_functions", len(reg.Funcs))
 	c.Count("registry_types", len(reg.Types))
 	c.Count("registry_vars", len(reg.Vars))
+	c.Count("registry_consts", len(reg.Consts))
 
 	// ---- clause 1: constant-only parameters
 	lookupFn := func(name string) (reflect.Value, bool, int) {
@@ -408,20 +462,20 @@ func run(c *core.Ctx) {
 			var pt reflect.Type
 			if idx < 0 {
 				if !ft.IsVariadic() {
-					c.Violation(kase{Clause: "constant-only", Item: name}, "%s is no longer variadic over a constant-only type", name)
+					report(c, kase{Clause: "constant-only", Item: name}, "%s is no longer variadic over a constant-only type", name)
 					continue
 				}
 				pt = ft.In(ft.NumIn() - 1).Elem()
 			} else {
 				if idx+off >= ft.NumIn() {
-					c.Violation(kase{Clause: "constant-only", Item: name}, "%s has no parameter %d any more", name, idx)
+					report(c, kase{Clause: "constant-only", Item: name}, "%s has no parameter %d any more", name, idx)
 					continue
 				}
 				pt = ft.In(idx + off)
 			}
 			c.DistinctS("const", name, fmt.Sprint(idx))
 			if !isConstType(pt) {
-				c.Violation(kase{Clause: "constant-only", Item: name, Detail: pt.String()}, "parameter %d of %s has type %s: not an unexported string type defined in the library, so non-constant strings can be passed", idx, name, pt)
+				report(c, kase{Clause: "constant-only", Item: name, Detail: pt.String()}, "parameter %d of %s has type %s: not an unexported string type defined in the library, so non-constant strings can be passed", idx, name, pt)
 				continue
 			}
 			constTypes = append(constTypes, pt)
@@ -469,34 +523,41 @@ func run(c *core.Ctx) {
 		for i := 0; i < ft.NumOut(); i++ {
 			c.Eval(1)
 			if exposes(ft.Out(i), 0) {
-				c.Violation(kase{Clause: "exposure", Item: name}, "result %d of %s has (or contains) the constant-only type %s: client code can obtain a non-constant value of it", i, name, ft.Out(i))
+				report(c, kase{Clause: "exposure", Item: name}, "result %d of %s has (or contains) the constant-only type %s: client code can obtain a non-constant value of it", i, name, ft.Out(i))
 			}
 		}
 	}
 	for name, v := range reg.Vars {
 		c.Eval(1)
 		if exposes(reflect.TypeOf(v).Elem(), 0) {
-			c.Violation(kase{Clause: "exposure", Item: name}, "exported variable %s exposes a constant-only type", name)
+			report(c, kase{Clause: "exposure", Item: name}, "exported variable %s exposes a constant-only type", name)
+		}
+	}
+	for name, v := range reg.Consts {
+		c.Eval(1)
+		c.DistinctS("const-exposure", name)
+		if exposes(reflect.TypeOf(v), 0) {
+			report(c, kase{Clause: "exposure", Item: name}, "exported constant %s has the constant-only type %s: client code holds a value of that type, and slicing or concatenating it (%s[:0] + s...) yields run-time values that every constant-only parameter accepts", name, reflect.TypeOf(v), name)
 		}
 	}
 	for name, rhs := range reg.Aliases {
 		c.Eval(1)
 		r := []rune(rhs)
 		if len(r) > 0 && unicode.IsLower(r[0]) && !strings.Contains(rhs, ".") && rhs != "string" && rhs != "error" && rhs != "bool" && rhs != "int" && rhs != "byte" && rhs != "rune" {
-			c.Violation(kase{Clause: "exposure", Item: name}, "exported alias %s = %s makes an unexported type nameable by clients", name, rhs)
+			report(c, kase{Clause: "exposure", Item: name}, "exported alias %s = %s makes an unexported type nameable by clients", name, rhs)
 		}
 	}
 	for name, t := range reg.Types {
 		c.Eval(1)
 		if isConst(t) || t.Kind() == reflect.String && exposesUnderlying(t, constTypes) {
-			c.Violation(kase{Clause: "exposure", Item: name}, "exported type %s is a constant-only type", name)
+			report(c, kase{Clause: "exposure", Item: name}, "exported type %s is a constant-only type", name)
 		}
 		for _, rt := range []reflect.Type{t, reflect.PtrTo(t)} {
 			for i := 0; i < rt.NumMethod(); i++ {
 				m := rt.Method(i)
 				for j := 0; j < m.Type.NumOut(); j++ {
 					if exposes(m.Type.Out(j), 0) {
-						c.Violation(kase{Clause: "exposure", Item: name + "." + m.Name}, "method %s.%s returns the constant-only type %s", name, m.Name, m.Type.Out(j))
+						report(c, kase{Clause: "exposure", Item: name + "." + m.Name}, "method %s.%s returns the constant-only type %s", name, m.Name, m.Type.Out(j))
 					}
 				}
 			}
@@ -504,7 +565,7 @@ func run(c *core.Ctx) {
 		if t.Kind() == reflect.Struct {
 			for i := 0; i < t.NumField(); i++ {
 				if t.Field(i).IsExported() && exposes(t.Field(i).Type, 0) {
-					c.Violation(kase{Clause: "exposure", Item: name}, "exported field %s.%s exposes a constant-only type", name, t.Field(i).Name)
+					report(c, kase{Clause: "exposure", Item: name}, "exported field %s.%s exposes a constant-only type", name, t.Field(i).Name)
 				}
 			}
 		}
@@ -515,12 +576,12 @@ func run(c *core.Ctx) {
 		c.Eval(1)
 		c.DistinctS("closed", name)
 		if t.Kind() != reflect.Struct {
-			c.Violation(kase{Clause: "closed", Item: name}, "safe type %s is a %s, not a struct with unexported fields: clients can convert strings to it", name, t.Kind())
+			report(c, kase{Clause: "closed", Item: name}, "safe type %s is a %s, not a struct with unexported fields: clients can convert strings to it", name, t.Kind())
 			continue
 		}
 		for i := 0; i < t.NumField(); i++ {
 			if t.Field(i).IsExported() {
-				c.Violation(kase{Clause: "closed", Item: name}, "safe type %s has the exported field %s: clients can construct or modify it", name, t.Field(i).Name)
+				report(c, kase{Clause: "closed", Item: name}, "safe type %s has the exported field %s: clients can construct or modify it", name, t.Field(i).Name)
 			}
 			if t.Field(i).Anonymous {
 				c.Count("embedded_fields_in_safe_types", 1)
@@ -546,14 +607,14 @@ func run(c *core.Ctx) {
 			c.Eval(1)
 			c.DistinctS("convertible", sn+"->"+dname)
 			if src.ConvertibleTo(dst) {
-				c.Violation(kase{Clause: "convertible", Item: dname + "<-" + sn}, "a value of type %s converts to the safe type %s (identical underlying types): the client expression %s(v) compiles and carries the contents over without the sanitization %s stands for", sn, dname, dname, dname)
+				report(c, kase{Clause: "convertible", Item: dname + "<-" + sn}, "a value of type %s converts to the safe type %s (identical underlying types): the client expression %s(v) compiles and carries the contents over without the sanitization %s stands for", sn, dname, dname, dname)
 			}
 		}
 		for bn, bt := range basics {
 			c.Eval(1)
 			c.DistinctS("convertible", bn+"->"+dname)
 			if bt.ConvertibleTo(dst) {
-				c.Violation(kase{Clause: "convertible", Item: dname + "<-" + bn}, "a %s converts to the safe type %s", bn, dname)
+				report(c, kase{Clause: "convertible", Item: dname + "<-" + bn}, "a %s converts to the safe type %s", bn, dname)
 			}
 		}
 	}
@@ -617,11 +678,11 @@ func run(c *core.Ctx) {
 		var err error
 		pn := core.Recover(func() { t, err = template.ParseFS(tfs, pat) })
 		if pn != nil {
-			c.Violation(kase{Clause: "parsefs", Item: pat}, "ParseFS panicked on pattern %q: %v", pat, pn)
+			report(c, kase{Clause: "parsefs", Item: pat}, "ParseFS panicked on pattern %q: %v", pat, pn)
 			continue
 		}
 		if err == nil && t != nil && (t.Lookup("canary") != nil || t.Lookup("canary.tmpl") != nil) {
-			c.Violation(kase{Clause: "parsefs", Item: pat}, "ParseFS with pattern %q read a file outside the TrustedFS root", pat)
+			report(c, kase{Clause: "parsefs", Item: pat}, "ParseFS with pattern %q read a file outside the TrustedFS root", pat)
 		}
 		c.Hist("parsefs", fmt.Sprint(err == nil))
 	}
